@@ -73,8 +73,8 @@ func parseHeaderCmd(args []string) int {
 	secB := []uint64{0, 1, 999999999, 1<<31 - 1, 1 << 31, 1<<31 + 1, 1<<32 - 1, 1 << 32, 1<<32 + 1, 9223372036, 9223372037, 1<<34 - 1}
 	seqB := []uint32{0, 1, 9, 10, 65535, 65536, 1<<31 - 1, 1 << 31, 1<<32 - 2, 1<<32 - 1}
 	msCounter := 0
+	var emit func(code int, name string, sec uint64, ms int, seq uint32)
 	one := func(code int, name string) {
-		trace++
 		sec := secB[rng.Intn(len(secB))]
 		if rng.Intn(2) == 0 {
 			sec = uint64(rng.Int63n(1 << 34))
@@ -85,6 +85,10 @@ func parseHeaderCmd(args []string) int {
 		}
 		ms := msCounter % 1000
 		msCounter++
+		emit(code, name, sec, ms, seq)
+	}
+	emit = func(code int, name string, sec uint64, ms int, seq uint32) {
+		trace++
 		body := hostileBodies[rng.Intn(len(hostileBodies))]
 		line := fmt.Sprintf("type=%s msg=audit(%d.%03d:%d): %s", name, sec, ms, seq, body)
 		rec := map[string]interface{}{"k": "header", "trace": trace, "type": code, "name": bytesOfS(name), "sec": digitsU64(sec), "ms": ms,
@@ -135,6 +139,23 @@ func parseHeaderCmd(args []string) int {
 		code := rng.Intn(65536)
 		one(code, auparse.AuditMessageType(code).String())
 	}
+	// headers parsed one after the other that differ little: the same time stamp with a sequence number that
+	// extends, shortens or repeats the previous one; the same sequence number with neighbouring time stamps
+	for rep := 0; rep < 40; rep++ {
+		sec := uint64(rng.Int63n(1 << 34))
+		ms := rng.Intn(1000)
+		for _, chain := range [][]uint32{{5040, 50406, 504, 50406, 5}, {1, 17, 171, 1, 17}, {429496729, 4294967295, 42949672, 429496729},
+			{0, 0, 1, 10, 100, 10, 1, 0}, {rng.Uint32() / 100000, rng.Uint32() / 1000, rng.Uint32()}} {
+			for _, seq := range chain {
+				emit(1300, "SYSCALL", sec, ms, seq)
+			}
+		}
+		seq := rng.Uint32()
+		for _, d := range []int{0, 1, 0, 10, 100, 0} {
+			emit(1300, "SYSCALL", sec+uint64(d/100), (ms+d)%1000, seq)
+			emit(1302, "PATH", sec, ms, seq)
+		}
+	}
 
 	// malformed headers
 	bad := func(line, how string, afterMsg bool) {
@@ -175,6 +196,12 @@ func parseHeaderCmd(args []string) int {
 		colon := open + strings.IndexByte(line[open:], ':')
 		for _, p := range []int{open, dot, colon, closeAt} {
 			bad(line[:p]+line[p+1:], "separator removed", true)
+		}
+		// time stamps in a syntax that number parsers other than the decimal one take
+		for _, ts := range []string{fmt.Sprintf("%d.", sec), fmt.Sprintf(".%03d", ms), fmt.Sprintf("%d.0e1", sec), fmt.Sprintf("%d.1e2", sec), "0x1p3.011", "1e9.011",
+			fmt.Sprintf("%d.%03d ", sec, ms), fmt.Sprintf(" %d.%03d", sec, ms),
+			fmt.Sprintf("%d.1_1", sec), fmt.Sprintf("%d_0.011", sec), "Inf.011", "NaN.011", fmt.Sprintf("%d.", sec) + "٠١١"} {
+			bad(fmt.Sprintf("type=%s msg=audit(%s:%d): %s", name, ts, seq, body), "time stamp is not decimal seconds.milliseconds", true)
 		}
 		// a sequence number that does not fit 32 bits is not a sequence number
 		for _, big := range []string{"4294967296", "4294967297", "42949672950", "18446744073709551615", "18446744073709551616", "99999999999999999999999"} {
